@@ -43,6 +43,8 @@ const (
 	baseLattice = 0
 	baseSample  = 1_000_000
 	baseShapes  = 2_000_000
+	baseSpell   = 3_000_000 // lattice blocks of universe 'spellings'
+	baseSpellS  = 4_000_000 // sampled points drawn from spellDomains
 )
 
 type harness struct {
@@ -275,6 +277,9 @@ func (h *harness) judge(c *rep.Case, layer string, pt *point, ex *expect, zones 
 			ExpectAligned: ex.Aligned, ExpectAllowed: ex.Allowed, ExpectWhy: ex.Why, ExpectPolicy: ex.Published + " via " + ex.Via,
 			ObservedValue: value, ObservedAction: action, Log: log,
 		}
+		if pt.Shape == ShOne && !isASCII(pt.From) {
+			sig += "@non-ascii-from" // the From domain is written with a U-label (cause class of lookup-name defects)
+		}
 		if sc != nil {
 			sig += sc.sigSuffix()
 			what += " [pipeline: " + sc.String() + "]"
@@ -297,6 +302,9 @@ func (h *harness) judge(c *rep.Case, layer string, pt *point, ex *expect, zones 
 	}
 	if ex.TempDNS {
 		r.Count("judged_dns_tempfail", 1)
+		if !isASCII(pt.From) {
+			r.Count("judged_dns_tempfail_u_label_from", 1)
+		}
 		h.countJudged(sc, "dns_tempfail")
 		if action != ActTempfail {
 			viol("dns-tempfail/"+pt.Lookup+"/observed="+action,
@@ -310,6 +318,12 @@ func (h *harness) judge(c *rep.Case, layer string, pt *point, ex *expect, zones 
 	}
 	if ex.PassIff {
 		r.Count("judged_verdict_iff", 1)
+		for _, k := range ex.StrictRespelled {
+			r.Count("judged_strict_same_domain_"+strings.ReplaceAll(k, "-", "_"), 1)
+		}
+		if !isASCII(pt.From) {
+			r.Count("judged_policy_found_for_u_label_from_"+ex.Via, 1)
+		}
 		if ex.Aligned && !pass && value != "" {
 			viol("verdict/aligned-but-"+value+"/nearest="+first(ex.AlignedIDs),
 				fmt.Sprintf("dmarc=%s for From domain %s although %v is aligned", value, pt.From, ex.AlignedIDs))
@@ -370,7 +384,7 @@ func (h *harness) evalPoint(c *rep.Case, pt *point, hdr textproto.Header, zones 
 		if !ex.AuthorOK {
 			why = "author"
 		}
-		shapes[strings.Join([]string{pt.Shape, pt.ShapeKind, lowerASCII(pt.From), pt.Lookup, pt.Rec.P, pt.Rec.SP, pt.Rec.ADKIM, pt.Rec.ASPF, why, first(ex.AlignedIDs)}, "|")] = struct{}{}
+		shapes[strings.Join([]string{pt.Shape, pt.ShapeKind, canon(pt.From), pt.Lookup, pt.Rec.P, pt.Rec.SP, pt.Rec.ADKIM, pt.Rec.ASPF, why, first(ex.AlignedIDs)}, "|")] = struct{}{}
 	}
 }
 
@@ -415,6 +429,61 @@ var uSuffix = &universe{
 	Lookups:  []string{LkAtDomain, LkNXThenOrg},
 }
 
+// uSpell: one domain in several spellings (model_test.go: canon / spell), so
+// that "identical in strict mode" and the policy lookup are exercised with
+// From and identifier domains that are the same domain but not the same string,
+// next to a look-alike that is another domain (bucher) and an internationalised
+// organisational domain.
+var uSpell = &universe{
+	Name: "spellings",
+	Froms: []string{
+		spell("xn--bcher-kva.example.org", spULabel, false),     // bücher.example.org
+		"xn--bcher-kva.example.org",                             // the same in A-labels
+		spell("xn--bcher-kva.example.org", spNFD, false),        // NFD
+		spell("mail.xn--bcher-kva.org", spULabelMixed, false),   // Mail.Bücher.ORG
+		"example.org",
+	},
+	Auth: []string{
+		"xn--bcher-kva.example.org",
+		spell("xn--bcher-kva.example.org", spALabelUpper, true), // XN--BCHER-KVA.EXAMPLE.ORG.
+		spell("xn--bcher-kva.example.org", spULabel, false),
+		spell("xn--bcher-kva.example.org", spNFD, false),
+		"bucher.example.org", // another domain
+		"example.org.",
+		"xn--bcher-kva.org",
+		spell("mail.xn--bcher-kva.org", spULabel, true), // mail.bücher.org.
+	},
+	Policies: [][2]string{{"reject", ""}, {"quarantine", "reject"}},
+	Modes:    allModes,
+	Lookups:  []string{LkAtDomain, LkNXThenOrg},
+}
+
+// spellBlocks: the policy-found lookups over every mode pair, and the
+// temporary failures (the name that fails is the A-label name).
+func spellBlocks() []block {
+	var out []block
+	u := uSpell
+	for _, f := range u.Froms {
+		for _, lk := range u.Lookups {
+			if lk != LkAtDomain && orgOf[canon(f)] == canon(f) {
+				continue
+			}
+			for pi, pol := range u.Policies {
+				for _, m := range u.Modes {
+					if pi > 0 && m != [2]string{"s", "s"} {
+						continue // every mode pair once, further policies in strict mode only
+					}
+					out = append(out, block{U: u, F: f, Lookup: lk, P: pol[0], SP: pol[1], ADKIM: m[0], ASPF: m[1], NDKIM: 1})
+				}
+			}
+		}
+		for _, lk := range []string{LkServfail, LkNXThenServfail} {
+			out = append(out, block{U: u, F: f, Lookup: lk, P: "reject", SP: "reject", ADKIM: "s", ASPF: "s", NDKIM: 1})
+		}
+	}
+	return out
+}
+
 type block struct {
 	U      *universe
 	F      string
@@ -434,7 +503,7 @@ func latticeBlocks(thorough bool) []block {
 	for _, u := range []*universe{uCore, uSuffix} {
 		for _, f := range u.Froms {
 			for _, lk := range u.Lookups {
-				if lk != LkAtDomain && orgOf[lowerASCII(f)] == lowerASCII(f) {
+				if lk != LkAtDomain && orgOf[canon(f)] == canon(f) {
 					// no other name to fall back to: the outcome is "no policy" whatever the record says
 					out = append(out, block{U: u, F: f, Lookup: lk, P: "reject", SP: "reject", ADKIM: "r", ASPF: "r", NDKIM: 1})
 					continue
@@ -471,7 +540,7 @@ func latticeBlocks(thorough bool) []block {
 			}
 			for _, f := range u.Froms {
 				for _, lk := range []string{LkAtDomain, LkNXThenOrg} {
-					if lk != LkAtDomain && orgOf[lowerASCII(f)] == lowerASCII(f) {
+					if lk != LkAtDomain && orgOf[canon(f)] == canon(f) {
 						continue
 					}
 					for _, pol := range u.Policies {
@@ -550,11 +619,15 @@ func (h *harness) runBlock(c *rep.Case, idx int, b block, pipeEvery int) {
 
 const sampleBatch = 200
 
-func (h *harness) runSample(c *rep.Case, i int) {
-	p := prng.New(h.r.Seed(), uint64(i), "c07-sample")
+func (h *harness) runSample(c *rep.Case, i int, g *domGen) {
+	label := "c07-sample"
+	if g.spell {
+		label = "c07-sample-spellings"
+	}
+	p := prng.New(h.r.Seed(), uint64(i), label)
 	shapes := map[string]struct{}{}
 	for k := 0; k < sampleBatch; k++ {
-		pt := randomPoint(p, judgeJunkTXT)
+		pt := randomPoint(p, judgeJunkTXT, g)
 		hdr, err := parseHeader(pt.Header)
 		if err != nil {
 			h.r.Count("sample_headers_unparsable", 1)
@@ -569,9 +642,12 @@ func (h *harness) runSample(c *rep.Case, i int) {
 		}
 		zones := buildZones(pt, froms)
 		h.evalPoint(c, pt, hdr, zones, true, shapes)
-		if i == baseSample && k < 3 {
+		if (i == baseSample || i == baseSpellS) && k < 3 {
 			h.r.Sample(pt)
 		}
+	}
+	if g.spell {
+		h.r.Count("sample_points_spellings", sampleBatch)
 	}
 	h.r.Count("sample_points", sampleBatch)
 	ss := make([]string, 0, len(shapes))
@@ -579,6 +655,10 @@ func (h *harness) runSample(c *rep.Case, i int) {
 		ss = append(ss, s)
 	}
 	h.r.Eval(sampleBatch, ss...)
+	if g.spell {
+		c.Done("sample-spellings", true)
+		return
+	}
 	c.Done("sample", true)
 }
 
@@ -610,6 +690,8 @@ func (h *harness) runShape(c *rep.Case, sc shapeCase) {
 	pairs := [][2]string{
 		{"example.org", "example.org"}, {"example.org", "mail.example.org"}, {"mail.example.org", "example.org"},
 		{"example.org", "example.com"}, {"example.com", "example.org"}, {"victim.co.uk", "attacker.co.uk"},
+		// one domain in two spellings (U-label / A-label)
+		{spell("xn--bcher-kva.example.org", spULabel, false), "xn--bcher-kva.example.org"},
 	}
 	shapes := map[string]struct{}{}
 	n := 0
@@ -705,10 +787,19 @@ func TestVerif(t *testing.T) {
 
 	ns := r.N(400, 15000)
 	for i := 0; i < ns; i++ {
-		r.Run(baseSample+i, fmt.Sprintf("sample-%d", i), func(c *rep.Case) { h.beginCase(baseSample + i); h.runSample(c, baseSample+i) })
+		r.Run(baseSample+i, fmt.Sprintf("sample-%d", i), func(c *rep.Case) { h.beginCase(baseSample + i); h.runSample(c, baseSample+i, plainDomains) })
 	}
 	for i, sc := range shapeCases() {
 		sc := sc
 		r.Run(baseShapes+i, fmt.Sprintf("shape/%s-%d", sc.Shape, sc.Kind), func(c *rep.Case) { h.beginCase(baseShapes + i); h.runShape(c, sc) })
+	}
+	// one domain in several spellings (own index ranges: nothing above is renumbered)
+	for i, b := range spellBlocks() {
+		b := b
+		r.Run(baseSpell+i, "lattice/"+b.String(), func(c *rep.Case) { h.beginCase(baseSpell + i); h.runBlock(c, i, b, pipeEvery) })
+	}
+	nsp := r.N(60, 600)
+	for i := 0; i < nsp; i++ {
+		r.Run(baseSpellS+i, fmt.Sprintf("sample-spellings-%d", i), func(c *rep.Case) { h.beginCase(baseSpellS + i); h.runSample(c, baseSpellS+i, spellDomains) })
 	}
 }
